@@ -1,7 +1,7 @@
 (* C10 — decoding of structures / directories, evaluation with the model, canonical printing. *)
 From Coq Require Import ZArith List String Bool.
 Import ListNotations.
-From TD Require Import Lib.Sexp Model.C10_Meta Model.C10_Sched.
+From TD Require Import Lib.Sexp Model.C10_Meta Model.C10_Sched Model.C10_Fault Model.C10_Refresh.
 Open Scope string_scope.
 Open Scope list_scope.
 
@@ -115,7 +115,16 @@ Fixpoint dec_td (s : sexp) : option td :=
       | Some sd, Some ms => Some (Lazy sd ms)
       | _, _ => None
       end
-  | SL [SA "tc"; SA c; x] => option_map (TCls c) (dec_td x)
+  | SL [SA "tc"; SA c; SL nt; x] =>
+      match (fix go (l : list sexp) : option (list (string * payload)) :=
+               match l with
+               | [] => Some []
+               | SL [SA k; v] :: r => match dec_payload v, go r with Some a, Some b => Some ((k, a) :: b) | _, _ => None end
+               | _ => None
+               end) nt, dec_td x with
+      | Some nt, Some x => Some (TCls c nt x)
+      | _, _ => None
+      end
   | SL [SA "ntd"; bs; p] =>
       match dec_list dec_nat bs, dec_payload p with Some bs, Some p => Some (NData bs p) | _, _ => None end
   | SL [SA "nts"; SL l] =>
@@ -131,7 +140,7 @@ Fixpoint enc_td (t : td) : sexp :=
                       SL ((fix go (l : list (string * td)) : list sexp :=
                              match l with [] => [] | (k, x) :: r => SL [SA k; enc_td x] :: go r end) es)]
   | Lazy sd ms => SL [SA "lazy"; enc_nat sd; SL ((fix go (l : list td) : list sexp := match l with [] => [] | x :: r => enc_td x :: go r end) ms)]
-  | TCls c x => SL [SA "tc"; SA c; enc_td x]
+  | TCls c nt x => SL [SA "tc"; SA c; SL (map (fun kv => SL [SA (fst kv); enc_payload (snd kv)]) nt); enc_td x]
   | NData bs p => SL [SA "ntd"; enc_list enc_nat bs; enc_payload p]
   | NStack its => SL [SA "nts"; SL ((fix go (l : list td) : list sexp := match l with [] => [] | x :: r => enc_td x :: go r end) its)]
   end.
@@ -187,7 +196,15 @@ Definition enc_err (e : err) : sexp :=
   SA (match e with
       | ETypeError => "TypeError" | ERuntime => "RuntimeError" | EKeyError => "KeyError" | EFileNotFound => "FileNotFoundError"
       | EValueError => "ValueError" | EReinterpret => "unmodelled-reinterpretation" | EOther => "other"
+      | EIsADirectory => "IsADirectoryError" | EPermission => "PermissionError"
       end).
+Definition dec_err (s : sexp) : option err :=
+  match s with
+  | SA "TypeError" => Some ETypeError | SA "RuntimeError" => Some ERuntime | SA "KeyError" => Some EKeyError
+  | SA "FileNotFoundError" => Some EFileNotFound | SA "ValueError" => Some EValueError
+  | SA "IsADirectoryError" => Some EIsADirectory | SA "PermissionError" => Some EPermission | SA "other" => Some EOther
+  | _ => None
+  end.
 Definition enc_res {A} (f : A -> sexp) (r : res A) : sexp :=
   match r with Ok a => SL [SA "ok"; f a] | Raised e => SL [SA "raised"; enc_err e] end.
 
@@ -224,8 +241,27 @@ Definition dec_grow (s : sexp) : option grow_op :=
   | _ => None
   end.
 
+Definition dec_fault (s : sexp) : option (floc * err) :=
+  match s with
+  | SL [p; f; e] => match dec_list dec_str p, dec_fname f, dec_err e with Some p, Some f, Some e => Some ((p, f), e) | _, _, _ => None end
+  | _ => None
+  end.
+Definition enc_outcome (x : outcome) : sexp := match x with TDone => SA "ok" | TFailed e => enc_err e end.
+
 Definition dispatch (cmd : string) (args : list sexp) : option sexp :=
   match cmd, args with
+  | "fault-call", [o; inplace; early; t; fl; order] =>
+      (* a save with obstacles on the disk: per submitted task its outcome and whether its future is collected by the entry
+         point; what the sequential call returns; what the pool call returns under the given completion order *)
+      match dec_opts o, dec_bool inplace, dec_bool early, dec_td t, dec_list dec_fault fl, dec_list dec_nat order with
+      | Some o, Some ip, Some early, Some t, Some fl, Some order =>
+          let sub := inject_sub fl (submitted repo_hands_over o ip t []) in
+          Some (SL [enc_list enc_outcome (map task_outcome (spawned sub));
+                    enc_list enc_bool (map snd sub);
+                    enc_res (fun _ => SA "state") (run_sequential_f fl o ip t);
+                    enc_res (fun _ => SA "state") (pool_call_f fl early o ip t (permute order (spawned sub)))])
+      | _, _, _, _, _, _ => None
+      end
   | "encode", [o; t] =>
       match dec_opts o, dec_td t with Some o, Some t => Some (enc_res enc_dir (encode o t)) | _, _ => None end
   | "save-over", [o; t1; t2] =>
@@ -273,6 +309,20 @@ Definition dispatch (cmd : string) (args : list sexp) : option sexp :=
       match dec_td t, dec_list dec_grow ops with
       | Some t, Some ops =>
           Some (enc_res enc_dir (bind (encode default_opts t) (fun d => Ok (snd (snd (grow_all ops t d))))))
+      | _, _ => None
+      end
+  | "refresh", [t; ops] =>
+      (* a second mapping loaded before the make_memmap calls and refreshed after them (memmap_refresh_); the directory
+         loaded into an empty tensordict of the same batch size (load_memmap_) *)
+      match dec_td t, dec_list dec_grow ops with
+      | Some t, Some ops =>
+          Some (match encode default_opts t with
+                | Ok d0 =>
+                    let d1 := snd (snd (grow_all ops t d0)) in
+                    SL [enc_res enc_td (refresh d0 d1);
+                        enc_res enc_td (load_into d1 (Node (match t with Node bs _ => bs | _ => [] end) []))]
+                | Raised e => enc_err e
+                end)
       | _, _ => None
       end
   | "grow-outcomes", [t; ops] =>
